@@ -228,3 +228,96 @@ fn c12_hasher_flow() {
     }
 }
 
+
+// ---------------------------------------------------------------------------------------------------------
+// C12.cache_identity — FileHasher::new_cached opens the cache that belongs to (hash function, whole transform command):
+// switching either between runs must select a different tree, so a stale hash of another configuration is never served.
+
+static mut OPENED_WITH_FULL_COMMAND: bool = false;
+static mut OPENED_WITH_NONE: bool = false;
+static mut OPENED_ALGORITHM_OK: bool = false;
+static mut OPEN_CALLS: u32 = 0;
+static mut EXPECT_ALGO: u8 = 0;
+
+fn algo_code(a: HashFn) -> u8 {
+    match a {
+        HashFn::Metro => 0,
+        HashFn::Xxhash => 1,
+        HashFn::Blake3 => 2,
+        HashFn::Sha256 => 3,
+        HashFn::Sha512 => 4,
+        HashFn::Sha3_256 => 5,
+        HashFn::Sha3_512 => 6,
+    }
+}
+
+fn stub_open_default(transform: Option<&str>, algorithm: HashFn) -> Result<HashCache, Error> {
+    unsafe {
+        OPEN_CALLS += 1;
+        OPENED_WITH_NONE = transform.is_none();
+        OPENED_WITH_FULL_COMMAND = match transform {
+            Some(s) => s.as_bytes() == b"prog -x $IN",
+            None => false,
+        };
+        OPENED_ALGORITHM_OK = algo_code(algorithm) == EXPECT_ALGO;
+        let mut c = std::mem::MaybeUninit::<HashCache>::uninit();
+        std::ptr::write_bytes(c.as_mut_ptr(), 1, 1);
+        Ok(c.assume_init())
+    }
+}
+
+fn stub_remove_dir_all_quiet<P: AsRef<std::path::Path>>(_path: P) -> io::Result<()> {
+    Ok(())
+}
+
+fn some_algorithm() -> HashFn {
+    let k: u8 = kani::any();
+    match k % 7 {
+        0 => HashFn::Metro,
+        1 => HashFn::Xxhash,
+        2 => HashFn::Blake3,
+        3 => HashFn::Sha256,
+        4 => HashFn::Sha512,
+        5 => HashFn::Sha3_256,
+        _ => HashFn::Sha3_512,
+    }
+}
+
+#[kani::proof]
+#[kani::stub(crate::cache::HashCache::open_default, stub_open_default)]
+#[kani::stub(std::fs::remove_dir_all, stub_remove_dir_all_quiet)]
+#[kani::unwind(16)]
+fn c12_cache_identity() {
+    let with_transform: bool = kani::any();
+    let algorithm = some_algorithm();
+    unsafe {
+        OPEN_CALLS = 0;
+        EXPECT_ALGO = algo_code(algorithm);
+    }
+    let transform = if with_transform {
+        Some(Transform {
+            command_str: String::from("prog -x $IN"),
+            tmp_dir: std::path::PathBuf::from("/t"),
+            copy: true,
+            in_place: false,
+            program: String::from("prog"),
+        })
+    } else {
+        None
+    };
+    let log = NullLog;
+    let r = FileHasher::new_cached(algorithm, transform, &log);
+    let ok = r.is_ok();
+    std::mem::forget(r);
+    unsafe {
+        assert!(ok && OPEN_CALLS == 1, "C12.cache_identity.cache_opened_once");
+        assert!(OPENED_ALGORITHM_OK, "C12.cache_identity.tree_selected_by_hash_function");
+        if with_transform {
+            assert!(OPENED_WITH_FULL_COMMAND, "C12.cache_identity.tree_selected_by_the_whole_transform_command");
+        } else {
+            assert!(OPENED_WITH_NONE, "C12.cache_identity.no_transform_means_the_untransformed_tree");
+        }
+        kani::cover!(with_transform, "cover.transform");
+        kani::cover!(!with_transform, "cover.no_transform");
+    }
+}
